@@ -7,6 +7,51 @@ ids = [p['id'] for p in props]
 
 # id -> (technique, level text, level note, design ref)
 CLAIMS = {
+ 'C06': ("bounded exhaustive two-run non-interference check over expression ASTs, hcldec-decoded bodies and dynamic-block bodies x marked variable x all content pairs (incl. unknown), on the real evaluator/decoder",
+         "Every AST of the eleven expression families that refers to a variable, every such variable marked as a whole or on its first element/attribute, and every pair of same-type contents (pool alternatives, typed unknown, null); plus 26 body templates x 5 marked variables x every hcldec block spec kind (incl. blocks nested in dynamic content) decoded through dynblock.Expand + hcldec.Decode. For every pair of error-free runs whose unmarked results differ, both results must carry the mark. The whole product is enumerated.",
+         "Trusted: go-cty mark bookkeeping. Two recorded findings (known-findings.json): dynamic block with marked for_each yielding zero blocks; object index with a known marked key (pinned by the repository's own test).",
+         "DESIGN.md section 4 C06"),
+ 'C07': ("bounded exhaustive two-run scope-pruning check over expression ASTs (native and JSON-embedded) and bodies under hcldec specs / with dynamic blocks, on the real Variables walkers",
+         "Every AST of the expression families plus 31 shadowing shapes, natively and as JSON string / array element / object key+value, and 26 body templates x 10 hcldec specs (hcldec.Variables, dynblock.VariablesHCLDec + ExpandVariablesHCLDec): evaluation (or Expand+Decode) in the scope restricted to the reported root names, and in a scope where every unreported name has a different value, must give the identical value and diagnostics as in the full scope; names that only occur bound must not be reported.",
+         "Diagnostic detail text (scope-dependent suggestions) is not compared. One recorded finding: dynblock.VariablesHCLDec misses variables inside attributes-mode blocks (BlockAttrsSpec) in dynamic content.",
+         "DESIGN.md section 4 C07"),
+ 'C09': ("bounded exhaustive enumeration of valid configurations x every single (and adjacent-pair) inter-token gap deviation, checking token-sequence preservation, value preservation and the formatting fixpoint on the real formatter",
+         "69 adjacency-covering configurations and 46 expression shapes x 17 positions x 4 comment decorations (42 token types, 287 adjacent type pairs, 1075 triples), each with every inter-token gap replaced by {none, space, two spaces, tab, newline, inline comment, line comments} where the result still lexes to the same tokens and parses; LF and CRLF. Format(src) must lex to the same (type, bytes) sequence, parse to the same structure with the same attribute values, and be a fixpoint.",
+         "The real lexer/parser only delimit the input domain (valid configurations with the same tokens in another layout). Style-only changes of the formatter are not violations.",
+         "DESIGN.md section 4 C09"),
+ 'C10': ("bounded exhaustive enumeration of the same configuration x layout space through hclwrite.ParseConfig / File.Bytes / tree accessors, invariant check on the real loader",
+         "Same space as C09. hclwrite.ParseConfig must not panic or report errors; File.Bytes() must have the source's token sequence and equal hclwrite.Format(src); Body.Attributes/Blocks/Labels (recursively) and every Expression.Variables() traversal must match what hclsyntax parsed; Attribute.Expr() holds the expression's tokens.",
+         "hclsyntax is the reference for the structure of the source (the property states the relation to the source).",
+         "DESIGN.md section 4 C10"),
+ 'C11': ("bounded exhaustive enumeration of values, labels and traversals through the real generator and back through the real parser/evaluator (round trip)",
+         "All strings of length <= 3 over a 19-rune escape-relevant alphabet (+ 12 extra runes at length <= 2) in 7 positions, 41 numbers x 8 wrappers, typed nulls, depth-2 containers, a 29-key alphabet (keywords, non-identifiers) singly / in pairs / triples, label lists through NewBlock / AppendNewBlock / SetLabels read back three ways, and all traversals of <= 2-3 steps over 45 steps: generated source must parse, evaluate to the original after conversion to its type, and read back the same traversal steps and labels.",
+         "Trusted: go-cty conversion/equality. One recorded finding: Block.Labels() of a constructed label '$${'.",
+         "DESIGN.md section 4 C11"),
+ 'C12': ("explicit-state search over all writer-API operation sequences up to depth 3/4 from 5 initial files, each history replayed on fresh real hclwrite objects and compared step by step with a map/list reference model",
+         "53 (thorough 77) operations (SetAttributeValue/Raw/Traversal, Rename/RemoveAttribute, AppendNewBlock, AppendBlock incl. re-appending a removed block, RemoveBlock incl. a foreign block, SetType, SetLabels, AppendNewline, AppendUnstructuredTokens) on the root body and nested bodies, from empty / generated / parsed-with-comments / no-final-newline files: every sequence of length <= 3 (thorough: + all length-4 sequences of the core alphabet). After the operations: no panic, Bytes() parses, parsed structure equals the model, read accessors agree, untouched items keep their tokens and comments. Evidence reports states, transitions and traces.",
+         "The reference model (ref/refwriter) never imports hclwrite. One recorded finding: appending into a one-line block. Return values of edit operations that the documentation does not specify are not asserted.",
+         "DESIGN.md section 4 C12, Appendix D"),
+ 'C14': ("bounded exhaustive enumeration of byte strings and single-byte edits through every scanning mode, RangeScanner and the JSON scanner, against a reference position counter; generated configurations with recorded construct spans for range fidelity",
+         "All byte strings of length <= 4 over a 33-byte lexer alphabet (and every single-byte edit of 22 corpus configurations) through LexConfig/LexExpression/LexTemplate from two start positions: tiling, bytes = source slice, one EOF, lines/columns = reference counter (newlines + grapheme clusters) wherever the property demands it; RangeScanner with three split functions and three start positions; 63 expression forms x 8 wrappers x 9 contexts and block/label/body products with exact recorded spans for every range of an error-free parse (re-parse equivalence of every expression range); 1080 JSON documents x whitespace styles for node ranges.",
+         "go-textseg grapheme segmentation is trusted. Lone CR, BOM, token boundaries inside a cluster and ill-formed UTF-8 columns are Unspecified (tiling is still demanded).",
+         "DESIGN.md section 4 C14"),
+ 'C15': ("bounded exhaustive enumeration of byte strings and of every single token-level edit of a valid corpus through every front-end entry point, schema application and evaluation in seven scopes; totality / determinism / diagnostic well-formedness invariants",
+         "All byte strings of length <= 3 over a 31-byte alphabet and every delete / duplicate / replace / insert of each of 49 damage elements at every token of 269 valid configs, expressions, templates and JSON documents, fed to 12 entry points (each twice): no panic, non-nil result, identical results, unusable result => error diagnostic, every diagnostic has severity, summary and in-bounds ranges; then 6 schemas x Content/PartialContent/JustAttributes recursively and evaluation of every reachable expression in 7 scopes (nil, empty, typical, dynamic, typed-unknown, marked, deep-marked).",
+         "Coverage-guided mutation named in the property's quantifier is a different technique family and is not used; hangs are detected by the engine's watchdog (300 s per case).",
+         "DESIGN.md section 4 C15"),
+ 'C16': ("bounded exhaustive enumeration of values of a family of tagged struct types through gohcl encode -> parse -> decode (native and an independently rendered JSON twin), plus every single structural edit of each document",
+         "12 struct types covering every supported tag kind and field type; each string position takes all 209 strings of <= 2 atoms over the escape-relevant alphabet, map keys from a keyword/non-identifier alphabet, numeric extremes, nil/empty/1-2 element slices, pointers, full product of block multiplicities and labels: EncodeIntoBody/EncodeAsBlock -> ParseConfig -> DecodeBody (and hclsimple) must reproduce the value; four JSON twins must decode to the same value; every single edit of each document must yield diagnostics or a value, never a panic.",
+         "nil and empty slices/maps are identified (documented normalisation). One recorded finding (thorough tier): lone CR followed by an escaped introducer in template mode.",
+         "DESIGN.md section 4 C16"),
+ 'C19': ("bounded exhaustive canary sweep over expression ASTs and bodies x variable x canary placement, scanning every diagnostic and its text renderings on the real evaluator/decoder",
+         "Every AST of the expression families that refers to a variable plus 400 erroneous forms aimed at the value-formatting diagnostic sites, and 16 body templates x 6 variables x 11 hcldec specs through dynblock.Expand + hcldec.Decode: each variable in turn is replaced by a marked value of the same shape whose strings, numbers, map keys and attribute names are high-entropy canaries; no diagnostic Summary/Detail and no NewDiagnosticTextWriter rendering (width 0/78, colour off/on) may contain a canary.",
+         "Messages of application-supplied functions are out of scope (the function table returns canary-free errors). One recorded finding: the text writer prints the value of a for-expression iteration variable taken from a collection marked as a whole.",
+         "DESIGN.md section 4 C19"),
+ 'C20': ("bounded exhaustive enumeration of traversal-shaped texts, constructor/call expressions and cty types, differential between static analysis and evaluation and between printer and parser, in both syntaxes",
+         "Roots x all step sequences <= 3 over 11 steps x 5 layouts x 12 scopes (AbsTraversalForExpr/RelTraversalForExpr vs Value, ExprAsKeyword); the same plus 15 near-traversal steps through ParseTraversalAbs vs the expression parser and as JSON strings; tuple / object / call expressions (ExprList / ExprMap / ExprCall parts evaluate to the whole's elements) in native and JSON syntax; all cty types of depth <= 2 and a stated depth-3 reduction through TypeString -> parse -> TypeConstraint natively and as JSON strings.",
+         "One recorded finding: TypeString of an object type whose first attribute is 'for'. JSON's stricter traversal grammar (json/spec.md delegates to the expression grammar) is counted, not judged: the property only demands agreement for texts the stand-alone parser accepts.",
+         "DESIGN.md section 4 C20"),
+
  'C05': ("bounded exhaustive two-run refinement check (abstract run vs every concrete instantiation) over expression ASTs x abstracted variable x abstraction kind, on the real evaluator",
          "Every AST of the eleven expression families, every variable it refers to (one at a time and all at once), every abstraction kind (dynamic, typed unknown, not-null, string prefix, numeric bounds, collection length bounds) and every admitted concrete instantiation from the pool: the abstract result must approximate each concrete result (Appendix B relation: convertible type, equal known parts, typed unknown parts, satisfied refinements). The whole product is enumerated, so the statement is 'no program/abstraction/instantiation in the bounded space is unsound'.",
          "Trusted: go-cty refinement accessors and conversion. Pairs where either run errors are outside the property's antecedent. Not reached: more than one variable abstracted with refinements at once (all-at-once uses plain typed unknowns), instantiations outside the pool alternatives.",
